@@ -4,7 +4,7 @@
    panic is an observed outcome).  [agree]: the model with every guard present ([..._now]) predicts
    exactly the observed outcome.  [P_b]: the property on the observed outcome alone: no panic on
    any input of the domain, and the error / fallback the statement names. *)
-From Verif Require Export Lib.Base Model.C16_Paths Model.C16_Sessions.
+From Verif Require Export Lib.Base Model.C16_Paths Model.C16_Sessions Model.C16_Bids.
 
 (* ------------------------------------------------------------------------------------------- *)
 (* equality tests *)
@@ -49,7 +49,8 @@ Inductive input :=
 (* sessions: one service instance, several operations, providers scripted call by call *)
 | IHeadSeq (script : list block_answer) (evs : list head_event)
 | IDynamicSeq (calls : N) (ps : list fetch) (fs : option (list fetch))
-| IProposeSeq (ops : list p1_in).
+| IProposeSeq (ops : list p1_in)
+| IBidSeq (s : list (list bid_relay)).                 (* one builder-bid strategy; per auction the relays with their keys and answers *)
 
 Inductive observed :=
 | OPropose (panicked : bool) (tr : p1_trace)
@@ -63,7 +64,10 @@ Inductive observed :=
 | ODynamic (o : outcome (list N) gr_err)               (* the line that was chosen *)
 | OHeadSeq (l : list (outcome (option N) unit))        (* the execution head after the constructor and after each event, up to the first panic *)
 | ODynamicSeq (l : list (outcome (list N) gr_err))     (* the line chosen by each call *)
-| OProposeSeq (l : list (bool * p1_trace)).            (* per proposal: panicked?, what the mocks saw; up to the first panic *)
+| OProposeSeq (l : list (bool * p1_trace))             (* per proposal: panicked?, what the mocks saw; up to the first panic *)
+| OBidSeq (l : list (outcome (list N * list N * N * list N) unit)).
+                                                       (* per auction: AllProviders, Providers, the winning score, the relays
+                                                          with a participation; up to the first panic (the process is gone) *)
 
 Record case := { c_id : N; c_in : input; c_obs : observed }.
 
@@ -104,6 +108,18 @@ Fixpoint all2 {A B} (f : A -> B -> bool) (l : list A) (m : list B) : bool :=
   | _, _ => false
   end.
 
+(* an auction's result in the shape of the observation; Providers and the participation map as sets *)
+Definition auction_obs (o : outcome auction_res unit) : outcome (list N * list N * N * list N) unit :=
+  match o with
+  | Ok r => Ok (ar_all r, ar_winners r, ar_score r, ar_participants r)
+  | Err e => Err e
+  | Panic => Panic
+  end.
+
+Definition auction_obs_eqb (a b : list N * list N * N * list N) : bool :=
+  let '(a1, w1, s1, p1) := a in let '(a2, w2, s2, p2) := b in
+  list_eqb N.eqb a1 a2 && list_eqb N.eqb (id_set w1) (id_set w2) && (s1 =? s2) && list_eqb N.eqb (id_set p1) (id_set p2).
+
 Definition agree (c : case) : bool :=
   match c_in c, c_obs c with
   | IPropose i, OPropose p tr =>
@@ -127,6 +143,8 @@ Definition agree (c : case) : bool :=
       all2 dynamic_agree l (dynamic_session (N.to_nat calls) ps fs)
   | IProposeSeq ops, OProposeSeq l =>
       all2 (fun o m => Bool.eqb (fst o) (fst m) && trace_eqb (snd o) (snd m)) l (propose_seq_now ops)
+  | IBidSeq s, OBidSeq l =>
+      list_eqb (outcome_eqb auction_obs_eqb unit_eqb) l (map auction_obs (bid_session_now s))
   | _, _ => false
   end.
 
@@ -401,6 +419,33 @@ Fixpoint P_propose_session (ops : list p1_in) (obs : list (bool * p1_trace)) : b
   | _, _ => false
   end.
 
+(* sessions of the builder-bid strategy: every auction is carried out and none panics, whatever the
+   48 bytes of the relays' public keys and the 96 bytes of their signatures are and whatever
+   happened in the auctions before; every usable relay is asked; the relays with a participation
+   are exactly those whose bid counts by the auction's own data (a complete bid, not below the
+   relay's minimum, fee recipient and timestamp in order, and - if the relay has a key - a signature
+   that verifies under it: a relay whose key is no key is ignored, nothing else is); the winning
+   score is the best of them and, where the arrival order cannot matter, the winners are exactly
+   the relays offering it. *)
+Definition P_auction (rs : list bid_relay) (o : outcome (list N * list N * N * list N) unit) : bool :=
+  match o with
+  | Ok (all, win, score, parts) =>
+      let os := offers rs in
+      list_eqb N.eqb all (good_relays (map br_client rs))
+      && list_eqb N.eqb (id_set parts) (id_set (map of_id os))
+      && (score =? best_value os)
+      && (if tie_free os then list_eqb N.eqb (id_set win) (id_set (best_offers os))
+          else forallb (fun w => memb N.eqb w (map of_id os)) win && ((lenN os =? 0) || (0 <? lenN win)))
+  | _ => false
+  end.
+
+Fixpoint P_bid_session (s : list (list bid_relay)) (obs : list (outcome (list N * list N * N * list N) unit)) : bool :=
+  match s, obs with
+  | [], [] => true
+  | a :: s', o :: obs' => P_auction a o && P_bid_session s' obs'
+  | _, _ => false
+  end.
+
 Definition P_b (c : case) : bool :=
   match c_in c, c_obs c with
   | IPropose i, OPropose p tr => P_propose i p tr
@@ -414,6 +459,7 @@ Definition P_b (c : case) : bool :=
   | IHeadSeq script evs, OHeadSeq l => P_head_session script evs l
   | IDynamicSeq calls ps fs, ODynamicSeq l => P_dynamic_session calls ps fs l
   | IProposeSeq ops, OProposeSeq l => P_propose_session ops l
+  | IBidSeq s, OBidSeq l => P_bid_session s l
   | _, _ => false
   end.
 
